@@ -10,7 +10,10 @@ permutation, so that the correspondence is EQUALITY of the permutation.
                                 is set, rows in increasing column order
 * `direct_cmk_pats rev n k code₁ … code_k`   the same for `k` patterns in one request (result lines concatenated)
 
-Result line: `ok n p₀ … p_{n-1}` or one of the outcomes `oob` (n = 0), `precondition`, `fuel`.
+* `direct_sky_empty kind`      `skyline_lu` (kind 0) / `amg` (kind 1) on a 0×0 system: nothing to compute, the answer is `ok`
+                                (the harness checks that the real code survives)
+
+Result line: `ok n p₀ … p_{n-1}` (`ok 0` for the empty matrix) or one of the outcomes `oob`, `precondition`, `fuel`.
 -/
 namespace Amgcl.Driver.Cmk
 open Amgcl Amgcl.Driver
@@ -43,6 +46,8 @@ def handle (op : String) (args : List String) : Option String :=
                  let codes ← pMany k pNat; pure (rev, n, codes)) args fun (rev, n, codes) =>
       if !(rev ≤ 1 && n ≤ 7 && codes.all (fun code => decide (code < 2 ^ (n * n)))) then badInput else
       joinSp (codes.map fun code => run rev (patMatrix n code))
+  | "direct_sky_empty" =>
+    withArgs pNat args fun kind => if kind ≤ 1 then "ok" else badInput
   | _ => none
 
 end Amgcl.Driver.Cmk
